@@ -927,6 +927,9 @@ class SolverWrapper:
         Ls = [r[0] for r in ranges]
         Us = [r[1] for r in ranges]
         M = (max(Us) - min(Ls)) * 2
+        # The big-M of the rows linking y to the constants must cover the spread of the constants
+        # (it is independent of the ranges of x)
+        M_y = max(constants) - min(constants)
 
         # Create binary variables z[i] for each piece.
         z = self.add_variables(
@@ -948,8 +951,8 @@ class SolverWrapper:
             # Link x with the range [L, U] if piece i is active.
             self.add_constraint(x >= L - M * (1 - z[i]), name=f"{name_prefix}_L_{i}")
             self.add_constraint(x <= U + M * (1 - z[i]), name=f"{name_prefix}_U_{i}")
-            self.add_constraint(y <= c + M * (1 - z[i]), name=f"{name_prefix}_yU_{i}")
-            self.add_constraint(y >= c - M * (1 - z[i]), name=f"{name_prefix}_yL_{i}")
+            self.add_constraint(y <= c + M_y * (1 - z[i]), name=f"{name_prefix}_yU_{i}")
+            self.add_constraint(y >= c - M_y * (1 - z[i]), name=f"{name_prefix}_yL_{i}")
 
     def _timeout_handler(self, signum, frame):
         """Internal: mark *custom* timeout occurrence.
